@@ -134,6 +134,16 @@ func (g *ExecutionGraph) IsRunning() bool {
 	return false
 }
 
+// hasLiveCommand tells whether the command of some non-repeating step is still running.
+func (g *ExecutionGraph) hasLiveCommand() bool {
+	for _, node := range g.Nodes() {
+		if !node.data.Step.RepeatPolicy.Repeat && node.isExecuting() {
+			return true
+		}
+	}
+	return false
+}
+
 func (g *ExecutionGraph) FinishAt() time.Time {
 	g.mu.RLock()
 	defer g.mu.RUnlock()
